@@ -4,6 +4,7 @@ from __future__ import annotations
 import ast
 import json
 import os
+import time
 
 from . import progs
 from .coord import PY311, PY312, Fleet, default_jobs, eprint, fresh_worker, hashseeds_for
@@ -23,9 +24,12 @@ def tier_params(tier: str) -> dict:
         return dict(n_hash=16, replicas=1, n_hash311=6, histories=int(os.environ.get("VERIF_C10_HISTORIES", 400000)),
                     floor_len=3, crash_enum=["short:while_break", "short:for_break", "short:capt2", "short:if_chain",
                                              "short:class_super", "short:from_import"],
-                    gen_o2=600, determinism_pairs=200, max_len=12)
+                    gen_o2=600, determinism_pairs=200, max_len=12, hunt_stmts=6000,
+                    hunt_runs=int(os.environ.get("VERIF_C10_HUNT", 3000)), pair_models=all_option_sets())
     return dict(n_hash=8, replicas=2, n_hash311=0, histories=int(os.environ.get("VERIF_C10_HISTORIES", 12000)),
-                floor_len=3, crash_enum=["short:for_break"], gen_o2=60, determinism_pairs=32, max_len=12)
+                floor_len=3, crash_enum=["short:for_break"], gen_o2=240, determinism_pairs=32, max_len=12,
+                hunt_stmts=6000, hunt_runs=int(os.environ.get("VERIF_C10_HUNT", 128)),
+                pair_models=[{"unparser": "oneliner", "expr_wrapper": "list", "if_style": "short_circuit"}])
 
 
 # ---------------------------------------------------------------------------------------------
@@ -96,7 +100,12 @@ class Shrinker:
             return False
         self.tests += 1
         desc = {"prop": PROP, "seed": 0, "ops": ops, "extend": True}
+        t0 = time.monotonic()
         r = self.w.request({"cmd": "c10_check", "desc": desc})
+        if self.tests == 1:
+            # keep the whole shrink under about a minute even for very large programs
+            dt = max(time.monotonic() - t0, 1e-3)
+            self.budget = max(8, min(self.budget, int(60.0 / dt)))
         return any(_viol_class(v) == self.target for v in r["violations"])
 
     def shrink(self, ops: list) -> list:
@@ -213,7 +222,7 @@ def verify_replay(repo: str, doc: dict) -> dict:
     kind = doc.get("kind", "history")
     if kind == "history":
         t = doc["template"]
-        with fresh_worker(repo, t["exe"], int(t["hashseed"]), int(t.get("pad", 0))) as fl:
+        with fresh_worker(repo, t["exe"], int(t["hashseed"]), int(t.get("pad", 0)), int(t.get("opt", 0))) as fl:
             r = fl.groups[0][0].request({"cmd": "c10_check", "desc": doc["desc"], "events": True})
         classes = sorted({"%s/%s" % _viol_class(v) for v in r["violations"]})
         want = "%s/%s" % tuple(doc["violation_class"])
@@ -221,8 +230,8 @@ def verify_replay(repo: str, doc: dict) -> dict:
                 "same_digest": r["digest"] == doc.get("digest"), "result": r.get("result"), "violations": r["violations"]}
     if kind == "envdep":
         outs = []
-        for hs, pad in zip(doc["hashseeds"], doc.get("pads") or [0, 0]):
-            with fresh_worker(repo, doc["exe"], int(hs), int(pad)) as fl:
+        for hs, pad, opt in zip(doc["hashseeds"], doc.get("pads") or [0, 0], doc.get("opts") or [0, 0]):
+            with fresh_worker(repo, doc["exe"], int(hs), int(pad), int(opt)) as fl:
                 r = fl.groups[0][0].request({"cmd": "c10_ref_src", "src": doc["src"], "mkeys": [doc["mkey"]], "text": True})
             outs.append(r[doc["mkey"]])
         a, b = outs
@@ -242,9 +251,10 @@ def run(repo: str, tier: str, seed: int, replay_dir=None, write_ev=True, jobs=No
     jobs = jobs or default_jobs()
     hs = hashseeds_for(seed, P["n_hash"])
     pads = [0, 0] + [derive_seed(seed, "pad", i) % 4000 for i in range(len(hs))]
-    specs = [(PY312, h, pads[i]) for i, h in enumerate(hs)]
+    # every fourth template runs with -O (asserts stripped): the text must not depend on it
+    specs = [(PY312, h, pads[i], 1 if i % 4 == 3 else 0) for i, h in enumerate(hs)]
     if P["n_hash311"] and os.path.exists(PY311):
-        specs += [(PY311, h, pads[i]) for i, h in enumerate(hs[: P["n_hash311"]])]
+        specs += [(PY311, h, pads[i], 1 if i % 4 == 3 else 0) for i, h in enumerate(hs[: P["n_hash311"]])]
     n12 = len(hs)
     violations = []   # (doc, signature)
     notes = []
@@ -335,9 +345,10 @@ def run(repo: str, tier: str, seed: int, replay_dir=None, write_ev=True, jobs=No
             msrc = "\n".join(lines)
             sig = "O2/environment-dependent-output"
             doc = {"property": PROP, "kind": "envdep", "exe": exe, "hashseeds": [ha, hb],
-                   "pads": [fleet.specs[a][2], fleet.specs[b][2]], "src": msrc, "mkey": mk,
+                   "pads": [fleet.specs[a][2], fleet.specs[b][2]], "opts": [fleet.specs[a][3], fleet.specs[b][3]],
+                   "src": msrc, "mkey": mk,
                    "origin_prog": pid, "signature": sig,
-                   "what": "same source and options give different normalised text in two fresh processes that differ only in PYTHONHASHSEED / heap layout",
+                   "what": "same source and options give different normalised text in two fresh processes that differ only in PYTHONHASHSEED / heap layout / -O",
                    "replay": "./check C10 --replay <this file>"}
             vr = verify_replay(repo, doc)
             if not vr["reproduced"]:
@@ -349,7 +360,7 @@ def run(repo: str, tier: str, seed: int, replay_dir=None, write_ev=True, jobs=No
                     outs = []
                     for hsx, padx in [(ha, fleet.specs[a][2]), (hb, fleet.specs[b][2]), (ha, 0), (hb, 1), (ha, 7), (hb, 64),
                                       (ha, 333), (hb, 1500), (ha, 2), (hb, 3), (ha, 900), (hb, 2500)]:
-                        with fresh_worker(repo, exe, hsx, padx) as fl:
+                        with fresh_worker(repo, exe, hsx, padx, 0) as fl:
                             r = fl.groups[0][0].request({"cmd": "c10_ref_src", "src": cand_src, "mkeys": [mk]})[mk]
                         key = (r.get("sha"), json.dumps(r.get("exc")))
                         for okey, ohs, opad in outs:
@@ -365,6 +376,7 @@ def run(repo: str, tier: str, seed: int, replay_dir=None, write_ev=True, jobs=No
                     raise HarnessError("environment dependence seen on long-lived templates for %s did not reproduce in "
                                        "fresh interpreters" % pid)
                 doc["src"], doc["hashseeds"], doc["pads"] = found
+                doc["opts"] = [0, 0]
                 vr = verify_replay(repo, doc)
                 if not vr["reproduced"]:
                     raise HarnessError("O2 replay in fresh interpreters did not reproduce for %s" % pid)
@@ -426,6 +438,67 @@ def run(repo: str, tier: str, seed: int, replay_dir=None, write_ev=True, jobs=No
         cov["evaluations"] += ce_total
         log("crash-point enumeration: %d histories, %d failing" % (ce_total, len(ce_fail)))
 
+        # ---- phase program pairs: conv(A) then conv(B), for every ordered pair of pool programs -------
+        # State keyed by something two DIFFERENT programs can share (an identifier, a (name, line)
+        # pair, a character, a node position) only shows for a specific pair in a specific order.
+        from . import c10 as _c10
+
+        A_keys = _c10.OK_KEYS + _c10.FAIL_KEYS
+        B_keys = _c10.OK_KEYS
+        pair_models = [None] + [dict(m) for m in P["pair_models"]]
+        pair_hist = []
+        for m in pair_models:
+            pre = []
+            oid = None
+            if m is not None:
+                oid = "o1"
+                pre = [{"op": "new", "id": "o1"}] + [{"op": "set", "obj": "o1", "name": n, "value": m[n]} for n in OPTION_NAMES if n in m]
+            for a in A_keys:
+                for b in B_keys:
+                    if a == b:
+                        continue
+                    pair_hist.append(pre + [{"op": "conv", "prog": a, "obj": oid}, {"op": "conv", "prog": b, "obj": oid}])
+        pjobs = []
+        CH = 150
+        for i in range(0, len(pair_hist), CH):
+            pjobs.append((groups12[(i // CH) % len(groups12)], {"cmd": "c10_histories", "ops_list": pair_hist[i:i + CH]}))
+        pair_fail = []
+        for (g, req), r in zip(pjobs, fleet.run(pjobs)):
+            for f in r["failures"]:
+                pair_fail.append((g, f))
+            _merge(cov, r, states, transitions, desc_digests)
+        cov["phases"]["program_pairs"] = {"histories": len(pair_hist), "ordered_pairs": len(A_keys) * len(B_keys) - len(B_keys),
+                                          "option_models": ["none"] + ["|".join(m.get(n, "-") for n in OPTION_NAMES) for m in P["pair_models"]],
+                                          "exhaustive_over": "all ordered pairs (A, B), A in pool incl. failing programs, B in pool",
+                                          "failures": len(pair_fail)}
+        cov["evaluations"] += len(pair_hist)
+        log("program pairs: %d histories, %d failing" % (len(pair_hist), len(pair_fail)))
+
+        # ---- phase collision hunt --------------------------------------------------------------
+        # One output with thousands of temporaries of the same template, under many reseed values:
+        # two temporaries sharing a name (entropy loss in the fresh-name machinery) changes the
+        # normal form.  With the 26**10 name space of the pinned tree the chance is ~1e-7 per run.
+        n_sw = P["hunt_stmts"]
+        swap_src = "a, b = 1, 2\n" + "a, b = b, a\n" * n_sw
+        hunt_hist = []
+        for i in range(P["hunt_runs"]):
+            hs_i = derive_seed(seed, "hunt", i) % (1 << 31)
+            warm = [{"op": "conv", "prog": "short:multi_destructure", "obj": None}] * (i % 3)
+            hunt_hist.append([{"op": "new", "id": "o1"}, {"op": "set", "obj": "o1", "name": "expr_wrapper", "value": "list"},
+                              {"op": "set", "obj": "o1", "name": "unparser", "value": "oneliner"}] + warm +
+                             [{"op": "reseed", "n": hs_i}, {"op": "conv", "src": swap_src, "obj": "o1"}])
+        hjobs = [(groups12[i % len(groups12)], {"cmd": "c10_histories", "ops_list": hunt_hist[i:i + 2]})
+                 for i in range(0, len(hunt_hist), 2)]
+        hunt_fail = []
+        for (g, req), r in zip(hjobs, fleet.run(hjobs)):
+            for f in r["failures"]:
+                hunt_fail.append((g, f))
+            _merge(cov, r, states, transitions, desc_digests)
+        cov["phases"]["collision_hunt"] = {"histories": len(hunt_hist), "temporaries_per_output": n_sw + 1,
+                                           "failures": len(hunt_fail)}
+        cov["evaluations"] += len(hunt_hist)
+        log("collision hunt: %d conversions with %d temporaries each, %d failing" % (len(hunt_hist), n_sw + 1, len(hunt_fail)))
+
         # ---- phase seeded histories ------------------------------------------------------
         n_hist = P["histories"]
         seeds = [derive_seed(seed, PROP, i) for i in range(n_hist)]
@@ -439,11 +512,13 @@ def run(repo: str, tier: str, seed: int, replay_dir=None, write_ev=True, jobs=No
         sres = fleet.run(sjobs)
         seeded_fail = []
         first_digests = {}
+        first_logs = {}
         for (g, req), r in zip(sjobs, sres):
             for f in r["failures"]:
                 seeded_fail.append((g, f))
             _merge(cov, r, states, transitions, desc_digests)
             first_digests.update({(g, k): v for k, v in r["digests"].items()})
+            first_logs.update({(g, k): v for k, v in (r.get("logs") or {}).items()})
             samples.extend(r["samples"])
         cov["phases"]["seeded"] = {"histories": n_hist, "failures": len(seeded_fail), "max_len": P["max_len"]}
         cov["evaluations"] += n_hist
@@ -464,12 +539,26 @@ def run(repo: str, tier: str, seed: int, replay_dir=None, write_ev=True, jobs=No
                 pairs += 1
                 if first_digests.get((g, k)) != v:
                     mism += 1
+                    a, b = first_logs.get((g, k)) or {}, (r.get("logs") or {}).get(k) or {}
+                    where = "descriptor" if a.get("ops") != b.get("ops") else "event log"
+                    detail = ""
+                    if where == "event log":
+                        for i, (ea, eb) in enumerate(zip(a.get("events", []), b.get("events", []))):
+                            if ea != eb:
+                                detail = "event %d: %s  VS  %s" % (i, json.dumps(ea, sort_keys=True)[:400], json.dumps(eb, sort_keys=True)[:400])
+                                break
+                    else:
+                        for i, (oa, ob) in enumerate(zip(a.get("ops", []), b.get("ops", []))):
+                            if oa != ob:
+                                detail = "op %d: %s  VS  %s" % (i, json.dumps(oa, sort_keys=True)[:300], json.dumps(ob, sort_keys=True)[:300])
+                                break
+                    eprint("DETERMINISM-MISMATCH seed=%s template-group=%d differs in the %s; %s" % (k, g, where, detail))
         cov["determinism_selfcheck"] = {"pairs_compared": pairs, "mismatches": mism}
         determinism_mismatch = mism
         log("determinism self-check: %d pairs, %d mismatches" % (pairs, mism))
 
         # ---- shrink + replay-verify failures ---------------------------------------------
-        all_fail = floor_fail + ce_fail + seeded_fail
+        all_fail = floor_fail + ce_fail + pair_fail + hunt_fail + seeded_fail
         unreproducible = []
         by_class = {}
         for g, f in all_fail:
@@ -551,7 +640,7 @@ def run(repo: str, tier: str, seed: int, replay_dir=None, write_ev=True, jobs=No
     cov["simulated_time"] = "not applicable: the system has no clock or timer; logical steps are reported instead"
     cov["logical_steps"] = {"traced_line_events_in_abort_ops": cov.pop("_lines", 0), "api_actions": cov.pop("_ops", 0),
                             "conversions_checked_against_reference": cov.pop("_convs", 0)}
-    cov["templates"] = [{"exe": e, "hashseed": h, "heap_pad": p} for e, h, p in specs]
+    cov["templates"] = [{"exe": e, "hashseed": h, "heap_pad": p, "python_O": o} for e, h, p, o in specs]
     cov["real_vs_stub"] = {"real": ["whole oneliner package", "CPython ast/symtable/random"],
                            "simulated": ["order of API calls", "global PRNG state", "PYTHONHASHSEED", "abort instants"],
                            "stubbed": []}
